@@ -120,6 +120,10 @@ def gen_program(rng):
             elif t == 'i':
                 x = rng.choice(['X', 'Y', 'Z', 'X+', 'Y+', '-Z', 'Y+5', 'Z+(1+2)'])
                 args_text.append(x); args.append((x, None))
+            elif rng.random() < .08:
+                # a character literal: re-printed as its code
+                ch = rng.choice('azAZ09 #+;')
+                args_text.append("'%s'" % ch); args.append(('(%d)' % ord(ch), ord(ch)))
             else:
                 k = rng.random()
                 if k < .45:
